@@ -1,5 +1,6 @@
 import Dashu.Model.Int.Repr
 import Dashu.Model.Int.Mul
+import Dashu.Model.Int.MulPrim
 import Dashu.Gen.Misc
 /-
   Operator layer for `UBig`/`IBig` ring arithmetic: the sign tables of `add_ops.rs`
@@ -81,14 +82,13 @@ def mulLarge (W : Nat) (lhs rhs : List Nat) : TRepr :=
     fromBuffer W (addSignedMul W (lhs.length + rhs.length)
       (List.replicate (lhs.length + rhs.length) 0) false lhs rhs).1
 
-/-- `mul_dword` -/
+/-- `mul_dword`; the spilled arm is `mul_dword_spilled`: `(lo, hi) = math::mul_add_carry_dword(lhs, rhs, 0)` (mirrored
+    in `Model/Int/MulPrim.lean`), the four words pushed into a 4-word buffer -/
 def mulDword (W : Nat) (a b : Nat) : TRepr :=
   if a < 2 ^ W ∧ b < 2 ^ W then .small (a * b)
   else
-    let p := a * b
-    let lo := p % 2 ^ (2 * W)
-    let hi := p / 2 ^ (2 * W)
-    fromBuffer W [lo % 2 ^ W, lo / 2 ^ W, hi % 2 ^ W, hi / 2 ^ W]
+    let p := mulAddCarryDword W a b 0
+    fromBuffer W [p.1 % 2 ^ W, p.1 / 2 ^ W, p.2 % 2 ^ W, p.2 / 2 ^ W]
 
 /-- `mul_large_dword` -/
 def mulLargeDword (W : Nat) (buffer : List Nat) (rhs : Nat) : TRepr :=
@@ -116,10 +116,9 @@ def TRepr.sqr (W : Nat) : TRepr → TRepr
   | .small d =>
     if d < 2 ^ W then .small (d * d)
     else
-      let p := d * d
-      let lo := p % 2 ^ (2 * W)
-      let hi := p / 2 ^ (2 * W)
-      fromBuffer W [lo % 2 ^ W, lo / 2 ^ W, hi % 2 ^ W, hi / 2 ^ W]
+      -- square_dword_spilled: `(lo, hi) = math::mul_add_carry_dword(dw, dw, 0)`
+      let p := mulAddCarryDword W d d 0
+      fromBuffer W [p.1 % 2 ^ W, p.1 / 2 ^ W, p.2 % 2 ^ W, p.2 / 2 ^ W]
   | .large ws => squareLarge W ws
 
 /-- `impl_ibig_mul`: `IBig(mag0.mul(mag1).with_sign(sign0 * sign1))` -/
